@@ -891,6 +891,12 @@ func runC13Pool(env *Env, s *aggSession, ops []plan.Op, history *[]porcupine.Ope
 	}
 	env.Sleep(time.Nanosecond) // workers finish the messages they took before the clock can move
 	Block("pool-stop", func() { s.ap.Stop() })
+	// Stop has returned: no goroutine of the aggregation process may be left, and nobody takes
+	// messages from the channel any more
+	env.Sleep(time.Millisecond)
+	if left := census(func(g string) bool { return strings.Contains(g, "go-ipfix/pkg/intermediate.") }); len(left) > 0 {
+		env.Violate("worker-alive-after-stop", "", "%d goroutines of the aggregation process are still running after Stop returned, e.g. %s", len(left), oneLineStack(left[0]))
+	}
 	// expected final state: any order consistent with the per-node streams
 	for t := 0; t < nt; t++ {
 		for _, op := range per[t] {
